@@ -2,7 +2,7 @@
    every expression tree with at most four operator nodes (any of + - * / // % ** and unary minus, in any shape)
    is read back exactly from its minimal-parentheses printing.  The bound is part of the statement. *)
 From Coq Require Import List String Ascii QArith ZArith Bool.
-From Bq Require Import Expr Parser.
+From Bq Require Import Expr StdSem Parser.
 Import ListNotations.
 Open Scope string_scope.
 
@@ -129,7 +129,7 @@ From BqGen Require Import GenParser.
 
 Definition standard_binary : list (string * string) :=
   [("ast.Add", "operator.add"); ("ast.Sub", "operator.sub"); ("ast.Mult", "operator.mul"); ("ast.Div", "operator.truediv");
-   ("ast.FloorDiv", "operator.floordiv"); ("ast.Mod", "operator.mod"); ("ast.Pow", "operator.pow"); ("ast.BitXor", "operator.pow")].
+   ("ast.FloorDiv", "_floordiv"); ("ast.Mod", "operator.mod"); ("ast.Pow", "operator.pow"); ("ast.BitXor", "operator.pow")].
 
 Lemma lookup_all_sound {A} (eqb : A -> A -> bool) (eqb_eq : forall a b, eqb a b = true -> a = b)
       (want got : list (string * A)) :
@@ -145,6 +145,16 @@ Theorem binary_table_standard : forall node meaning,
   In (node, meaning) standard_binary -> lookup node gen_binary_op_map = Some meaning.
 Proof.
   apply (lookup_all_sound String.eqb (fun a b H => proj1 (String.eqb_eq a b) H)). vm_compute. reflexivity.
+Qed.
+
+(* the floor-division helper: outside exact rationals it IS Python's floor division, and on exact rationals with a
+   non-zero divisor the quotient it recovers from the remainder is the floor of the exact quotient *)
+Theorem floordiv_helper_fallback : lookup "_floordiv" gen_operator_helper_fallbacks = Some "operator.floordiv".
+Proof. reflexivity. Qed.
+
+Theorem floordiv_helper_is_floor : forall a b : Q, ~ b == 0 -> gen_helper_floordiv a b == Qfloordiv a b.
+Proof.
+  intros a b Hb. unfold gen_helper_floordiv, Qmod_std. field. exact Hb.
 Qed.
 
 Theorem binary_table_nothing_else : List.length gen_binary_op_map = List.length standard_binary.
